@@ -28,3 +28,20 @@ def path_skeleton(d):
     """'.tables[2].columns[1].note: a != b' -> '.tables[].columns[].note'"""
     head = d.split(':', 1)[0]
     return re.sub(r'\[\d+\]', '[]', head)
+
+
+def parser_class():
+    """the parser class of pydbml.parser.parser (a class there, other than the PyDBML factory, with a parse() method whose
+    constructor takes the source and allow_properties), found by scan so that a rename does not matter; None if there is none"""
+    import inspect
+    import pydbml.parser.parser as P
+    found = None
+    for c in vars(P).values():
+        if isinstance(c, type) and c.__module__ == P.__name__ and callable(getattr(c, 'parse', None)) and c.__name__ != 'PyDBML':
+            try:
+                params = list(inspect.signature(c.__init__).parameters)
+            except (TypeError, ValueError):
+                continue
+            if len(params) >= 2 and 'allow_properties' in params:
+                found = c
+    return found
